@@ -204,15 +204,18 @@ func drivePlugin(cfg *hx.RunCfg) error {
 					got, err := u.do(rg.req, 20*time.Second)
 					if err != nil {
 						// no answer at all: once more on a fresh connection, reported when it fails again
-						st.dist["exchange-retried"]++
-						u.close()
-						time.Sleep(50 * time.Millisecond)
-						be.drain()
-						if u, err = pr.dial(localIP, rt.domain); err == nil {
+						// (seen only under heavy machine load; up to two repetitions, each on a fresh connection)
+						for attempt := 0; attempt < 2 && err != nil; attempt++ {
+							st.dist["exchange-retried"]++
+							u.close()
+							time.Sleep(time.Duration(100*(attempt+1)) * time.Millisecond)
+							be.drain()
+							var derr error
+							if u, derr = pr.dial(localIP, rt.domain); derr != nil {
+								pr.close()
+								return fmt.Errorf("dial plugin %s: %v", kind, derr)
+							}
 							got, err = u.do(rg.req, 20*time.Second)
-						} else {
-							pr.close()
-							return fmt.Errorf("dial plugin %s: %v", kind, err)
 						}
 					}
 					if err != nil {
